@@ -49,6 +49,7 @@ class Verifier(Calls):
         self.st = State()
         self.exit_kinds = {}
         self.no_typing = False
+        self.iter_stack = []
         self.global_overrides = {}
         self.static_dicts = {}
         self.keepalive = []
@@ -109,9 +110,16 @@ class Verifier(Calls):
         if ci is not None:
             return so.typeof(r) == self.cids.cid(self.class_key(ci))
         if kind in self.reg.shapes:
-            # abstract objects are not builtin containers
-            return z3.And([so.typeof(r) != self.cids.cid(k) for k in ("list", "set", "frozenset", "dict")])
+            # abstract objects are not builtin containers, and objects of different abstract shapes are different objects
+            return z3.And([so.typeof(r) != self.cids.cid(k) for k in ("list", "set", "frozenset", "dict")]
+                          + [shape_kind(r) == self.shape_id(kind)])
         return z3.BoolVal(True)
+
+    def shape_id(self, name):
+        ids = self.__dict__.setdefault("_shape_ids", {})
+        if name not in ids:
+            ids[name] = sorted(self.reg.shapes).index(name) + 1
+        return ids[name]
 
     def from_term(self, term, ty=None):
         v = super().from_term(term, ty)
@@ -188,6 +196,7 @@ class Verifier(Calls):
         self.spec_mode = 0
         self.assumed_reads = set()
         self.keepalive = []
+        self.iter_stack = []
         self.static_dicts = {}
         self.global_overrides = {}
         self.fresh_objs = {}
@@ -397,6 +406,9 @@ class Verifier(Calls):
         if assumes:
             body = z3.Implies(z3.And([self.spec_bool(parse_expr(a), env) for a in assumes]), body)
         return z3.ForAll(qv, body) if qv else body
+
+
+shape_kind = z3.Function("shape_kind", I, I)
 
 
 def is_prestate_term(t):
